@@ -3,6 +3,7 @@ package props
 import (
 	"bytes"
 	"encoding/json"
+	"errors"
 	"fmt"
 	"sort"
 
@@ -53,13 +54,66 @@ func checkCell(c CellCase) error {
 	if !bytes.Equal(data, orig) {
 		return fmt.Errorf("CellBytes(type %d) modified the row image it was given", c.Col.Type)
 	}
-	if err := hist.ExpectCell(c.Col, c.Val, c.Unsigned).Check(out); err != nil {
+	exp := hist.ExpectCell(c.Col, c.Val, c.Unsigned)
+	if err := exp.Check(out); err != nil {
 		return fmt.Errorf("type %d meta %#x: %v", c.Col.Type, c.Col.LibMeta(), err)
+	}
+	// values handed out earlier must still be what they were: decoding another cell must not
+	// change them (a decoder that recycles its output buffer would)
+	for i := range retained {
+		r := &retained[i]
+		if r.out == nil {
+			continue
+		}
+		if err := r.exp.Check(r.out); err != nil {
+			prev := r.c
+			retained = [4]retainedCell{}
+			return &cellSeqError{Prev: prev, Cur: c, msg: fmt.Sprintf("a value decoded earlier (type %d) changed after a later cell (type %d) was decoded: %v", prev.Col.Type, c.Col.Type, err)}
+		}
+	}
+	if len(out) <= 256 {
+		retained[retainedNext%len(retained)] = retainedCell{c: c, exp: exp, out: out}
+		retainedNext++
 	}
 	return nil
 }
 
+type retainedCell struct {
+	c   CellCase
+	exp hist.Expect
+	out []byte
+}
+
+var retained [4]retainedCell
+var retainedNext int
+
+// cellSeqError carries the two cells whose decoding order exposes aliasing.
+type cellSeqError struct {
+	Prev, Cur CellCase
+	msg       string
+}
+
+func (e *cellSeqError) Error() string { return e.msg }
+
+// CellSeqCase decodes Prev, then Cur, then looks at Prev's output again.
+type CellSeqCase struct{ Prev, Cur CellCase }
+
+func checkCellSeq(c CellSeqCase) error {
+	retained = [4]retainedCell{}
+	if err := checkCell(c.Prev); err != nil {
+		return err
+	}
+	return checkCell(c.Cur)
+}
+
 func init() {
+	registerReplay("cellseq", func(raw json.RawMessage) error {
+		var c CellSeqCase
+		if err := json.Unmarshal(raw, &c); err != nil {
+			return err
+		}
+		return checkCellSeq(c)
+	})
 	registerReplay("cell", func(raw json.RawMessage) error {
 		var c CellCase
 		if err := json.Unmarshal(raw, &c); err != nil {
@@ -95,3 +149,13 @@ func bytesReader(b []byte) *bytes.Reader { return bytes.NewReader(b) }
 func sortInts(a []int) { sort.Ints(a) }
 
 func sortStrings(a []string) { sort.Strings(a) }
+
+// cellViolation records a failing direct-decoder case (a single cell, or the
+// pair of cells whose order exposes aliasing).
+func cellViolation(rec *Recorder, c CellCase, err error) string {
+	var se *cellSeqError
+	if errors.As(err, &se) {
+		return rec.Violation("cellseq", CellSeqCase{Prev: se.Prev, Cur: se.Cur}, "", err)
+	}
+	return rec.Violation("cell", c, "", err)
+}
